@@ -696,6 +696,12 @@ def run(ctx):
         if d_asan.oracle_fail:
             d.oracle_fail += d_asan.oracle_fail
     ctx.cov['features'] = dict(sorted(FEAT_HIST.items()))
+    if os.environ.get('C11_DEBUG'):
+        print('oracle_fail %d corr_fail %d' % (len(d.oracle_fail), len(d.corr_fail)))
+        nc = [x for x in d.corr_fail if 'CRASH' not in x[4]]
+        print('corr_fail without CRASH: %d' % len(nc))
+        for x in nc[:int(os.environ['C11_DEBUG'])]:
+            print('CORR', x[0], '\n   ', x[4])
 
     def extra(dd):
         dd.feed([unparse(gen_expr(rng, rng.choice([1, 2, 3]), 9)) for _ in range(20000)])
